@@ -249,6 +249,11 @@ func (pConn *PFCPConn) doShutdown() {
 	for _, sess := range pConn.store.GetAllSessions() {
 		pConn.upf.SendMsgToUPF(upfMsgTypeDel, sess.PacketForwardingRules, PacketForwardingRules{})
 		releaseAllocatedFTEIDs(pConn.upf.fteidGenerator, sess.pdrs)
+
+		if err := releaseAllocatedIPs(pConn.upf.ippool, &sess); err != nil {
+			logger.PfcpLog.Errorln("session IP dealloc failed:", err)
+		}
+
 		pConn.RemoveSession(sess)
 	}
 
